@@ -11,6 +11,8 @@ import (
 	"encoding/json"
 	"fmt"
 	"math/rand"
+	"sync"
+	"sync/atomic"
 
 	"github.com/jrhy/mast"
 )
@@ -262,6 +264,7 @@ type absOp struct {
 	R      int    `json:"r"`
 	JSON   bool   `json:"json"`
 	Cached bool   `json:"cached"`
+	Fault  bool   `json:"fault"` // root: Store calls fail at random during this MakeRoot
 }
 
 func (r *mapRun) reset() {
@@ -379,11 +382,29 @@ func (r *mapRun) exec(op absOp) {
 		delete(r.hs, op.G)
 	case "root":
 		var root *mast.Root
+		injected := int32(0)
+		if op.Fault {
+			var gmu sync.Mutex
+			grng := rand.New(rand.NewSource(int64(r.nextR)*7919 + int64(op.H)))
+			r.st.gate = func(name string, b []byte) error {
+				gmu.Lock()
+				defer gmu.Unlock()
+				if grng.Intn(2) == 0 {
+					atomic.AddInt32(&injected, 1)
+					return errInjected
+				}
+				return nil
+			}
+		}
 		ev.Res, ev.Msg = guard(func() error {
 			var err error
 			root, err = h.m.MakeRoot(ctx)
 			return err
 		})
+		r.st.gate = nil
+		if ev.Res == "err" && atomic.LoadInt32(&injected) > 0 {
+			ev.Op = "froot" // the error is the injected one: nothing may have changed for anybody
+		}
 		if ev.Res == "ok" {
 			if root.Link != nil {
 				ev.Name = *root.Link
@@ -728,7 +749,7 @@ func randomMapTrace(id int, seed int64, steps int, out *json.Encoder, fixed *map
 			}
 		case x < w[8]:
 			before := r.nextR
-			r.exec(absOp{Op: "root", H: h})
+			r.exec(absOp{Op: "root", H: h, Fault: (profile == "versions" || profile == "general") && !cfg.InMem && rng.Intn(5) == 0})
 			if r.nextR != before {
 				cp := map[int]int{}
 				for k, v := range sh.live[h] {
